@@ -101,78 +101,94 @@ Fixpoint unqual (n : str) : str :=
 Definition names_match (wn rn : str) (ral : list str) : bool :=
   bytes_eqb (unqual wn) (unqual rn) || mem wn ral || mem (unqual wn) ral.
 
-Section MatchNames.
-  Variables we re : env.
-  Variable mt : schema -> schema -> rres bool.
-  (* match_types on two strings (type names or named-type references) *)
-  Definition match_names (a b : tag) : rres bool :=
-    if tag_eqb a b then ROk true
-    else if promotable a b then ROk true
-    else match a, b with
-         | TName n, TName m =>
-             match lookup we n, lookup re m with
-             | Some w', Some r' => mt w' r'
-             | _, _ => ROk false
-             end
-         | _, _ => ROk false          (* named_schemas[...].get(<primitive or kind name>) is None *)
-         end.
-End MatchNames.
+(* _deref: a by-name reference stands for the definition it names (any str is looked up; only names are keys) *)
+Definition deref1 (e : env) (s : schema) : schema :=
+  match s with
+  | SRef n => match lookup e n with Some d => d | None => s end
+  | _ => s
+  end.
 
-(* `for schema in r_schema: if match_types(w, schema): return schema` *)
-Fixpoint first_branch (mt : schema -> rres bool) (bs : list schema) : rres schema :=
+(* _match_type_names(writer_type, reader_type, level) *)
+Definition match_type_names (a b : tag) (level : nat) : bool :=
+  tag_eqb a b || ((2 <=? level)%nat && promotable a b).
+
+(* `for schema in r_union: if match_types(w, schema, level): return schema` *)
+Fixpoint find_branch (mt : schema -> rres bool) (bs : list schema) : rres (option schema) :=
   match bs with
-  | [] => RErrResolution
-  | b :: bs => let+ x := mt b in if x then ROk b else first_branch mt bs
+  | [] => ROk None
+  | b :: bs => let+ x := mt b in if x then ROk (Some b) else find_branch mt bs
+  end.
+
+(* _reader_branch: levels 0, 1, 2 in turn *)
+Definition reader_branch (mt : nat -> schema -> rres bool) (bs : list schema) : rres (option schema) :=
+  let+ x := find_branch (mt 0%nat) bs in
+  match x with
+  | Some b => ROk (Some b)
+  | None => let+ x := find_branch (mt 1%nat) bs in
+            match x with
+            | Some b => ROk (Some b)
+            | None => find_branch (mt 2%nat) bs
+            end
   end.
 
 Definition check_match (b : rres bool) (ok : schema) : rres schema :=
   let+ x := b in if x then ROk ok else RErrResolution.
 
-Fixpoint match_types (f : nat) (we re : env) (w r : schema) {struct f} : rres bool :=
+(** level 0: the same type (a named type: the same full name); 1: named types also by unqualified name or
+    reader alias; 2: promotions, too *)
+Fixpoint match_types (f : nat) (we re : env) (level : nat) (w r : schema) {struct f} : rres bool :=
   match f with
   | O => RFuel
   | S f =>
+      let w := deref1 we w in
+      let r := deref1 re r in
       if is_list w || is_list r then ROk true
       else if is_dict w || is_dict r then
-        match match_schemas f we re w r with
+        match match_schemas f we re level w r with
         | ROk _ => ROk true
         | RErrResolution => ROk false
         | RErrOther => RErrOther
         | RFuel => RFuel
         end
-      else match_names we re (match_types f we re) (tag_of w) (tag_of r)
+      else ROk (match_type_names (tag_of w) (tag_of r) level)
   end
-with match_schemas (f : nat) (we re : env) (w r : schema) {struct f} : rres schema :=
+with match_schemas (f : nat) (we re : env) (level : nat) (w r : schema) {struct f} : rres schema :=
   match f with
   | O => RFuel
   | S f =>
-      if is_list w then ROk r          (* writer union: checked in read_union once the branch is known *)
+      let given := r in                 (* what is returned: the reader schema as given (a reference stays a name) *)
+      let w := deref1 we w in
+      let r := deref1 re r in
+      if is_list w then ROk given      (* writer union: checked in read_union once the branch is known *)
       else match r with
-      | SUnion bs => first_branch (match_types f we re w) bs
+      | SUnion bs =>
+          let+ x := reader_branch (fun l => match_types f we re l w) bs in
+          match x with Some b => ROk b | None => RErrResolution end
       | _ =>
         let wt := tag_of w in
         let rt := tag_of r in
         match strip w, strip r with
-        | SMap wv, SMap rv => check_match (match_types f we re wv rv) r
-        | SArray wi, SArray ri => check_match (match_types f we re wi ri) r
+        | SMap wv, SMap rv => check_match (match_types f we re 2 wv rv) given
+        | SArray wi, SArray ri => check_match (match_types f we re 2 wi ri) given
         | sw, sr =>
           if in_named_types wt && in_named_types rt then
             match sw, sr with
-            | SFixed wn _ wsz, SFixed rn ral rsz =>
-                if negb (wsz =? rsz) then RErrResolution
-                else if names_match wn rn ral then ROk r else RErrResolution
+            | SFixed _ _ wsz, SFixed _ _ rsz => if negb (wsz =? rsz) then RErrResolution else
+                match name_of sw, name_of sr with
+                | Some wn, Some rn =>
+                    if bytes_eqb wn rn || ((1 <=? level)%nat && names_match wn rn (aliases_of sr))
+                    then ROk given else RErrResolution
+                | _, _ => RErrOther
+                end
             | _, _ =>
                 match name_of sw, name_of sr with
-                | Some wn, Some rn => if names_match wn rn (aliases_of sr) then ROk r else RErrResolution
+                | Some wn, Some rn =>
+                    if tag_eqb wt rt && (bytes_eqb wn rn || ((1 <=? level)%nat && names_match wn rn (aliases_of sr)))
+                    then ROk given else RErrResolution
                 | _, _ => RErrOther
                 end
             end
-          else if negb (in_avro_types wt) && in_named_types rt then
-            match name_of sr with
-            | Some rn => check_match (match_names we re (match_types f we re) wt (TName rn)) (SRef rn)
-            | None => RErrOther
-            end
-          else check_match (match_names we re (match_types f we re) wt rt) r
+          else if match_type_names wt rt level then ROk given else RErrResolution
         end
       end
   end.
@@ -183,18 +199,23 @@ Fixpoint amdepth (s : schema) : nat :=
   match s with SArray s | SMap s | SAnnot _ s => S (amdepth s) | _ => O end.
 Definition mfuel (w : schema) : nat := 2 * amdepth w + 8.
 
-Definition match_top (we re : env) (w r : schema) : rres schema := match_schemas (mfuel w) we re w r.
-Definition match_types_top (we re : env) (w r : schema) : rres bool := match_types (mfuel w) we re w r.
+Definition match_top (we re : env) (w r : schema) : rres schema := match_schemas (mfuel w) we re 2 w r.
+Definition match_types_top (we re : env) (level : nat) (w r : schema) : rres bool := match_types (mfuel w) we re level w r.
 
 (** `if reader_schema:` - an empty list is falsy *)
 Definition truthy (r : option schema) : option schema :=
   match r with Some (SUnion []) => None | x => x end.
 
+(** a Python float holding an Avro "float" is a binary32 value widened to binary64:
+    unpack("<f", pack("<f", x))[0] *)
+Definition round32 (d : Z) : rres Z := let+ s := of_res (d2s d) in ROk (s2d s).
+
 (** maybe_promote(data, writer type name, reader type name) *)
 Definition maybe_promote (v : pyval) (wt rt : tag) : rres pyval :=
   match wt, rt, v with
-  | TInt, (TFloat | TDouble), PInt z | TLong, (TFloat | TDouble), PInt z =>
-      let+ d := of_res (z2d z) in ROk (PFloat d)                        (* float(data) *)
+  | (TInt | TLong), TDouble, PInt z => let+ d := of_res (z2d z) in ROk (PFloat d)          (* float(data) *)
+  | (TInt | TLong), TFloat, PInt z =>
+      let+ d := of_res (z2d z) in let+ x := round32 d in ROk (PFloat x)                   (* rounded to binary32 *)
   | TString, TBytes, PStr s => ROk (PBytes s)                           (* data.encode() *)
   | TBytes, TString, PBytes b => if utf8_valid b then ROk (PStr b) else RErrOther   (* data.decode() *)
   | _, _, _ => ROk v
@@ -227,25 +248,119 @@ Definition reader_field (rfs : list field) (n : str) : option field :=
   | None => tbl_get (alias_table rfs) n
   end.
 
-(* "fill in default values": raw JSON default, no conversion *)
-Fixpoint fill_defaults (tbl : list (str * field)) (record : list (pyval * pyval)) : rres (list (pyval * pyval)) :=
+(** _default_matches_schema(default, schema, named types): the JSON type of the default fits the schema.
+    (A str default that float() accepts also fits float / double in the code; such defaults are not generated.) *)
+Definition json_fits1 (ds : schema) (d : pyval) : bool :=
+  match ds, d with
+  | SArray _, PList _ | (SMap _ | SRecord _ _ _), PDict _ | (SEnum _ _ _ _ | SFixed _ _ _), PStr _
+  | SNull, PNone | SBool, PBool _ | (SString | SBytes), PStr _
+  | (SFloat | SDouble), (PInt _ | PFloat _) | (SInt | SLong), PInt _ => true
+  | _, _ => false
+  end.
+Definition json_fits (e : env) (s : schema) (d : pyval) : bool :=
+  match deref e s with
+  | SUnion bs => existsb (fun b => json_fits1 (deref e b) d) bs
+  | ds => json_fits1 ds d
+  end.
+
+Fixpoint latin1_of_utf8 (s : str) : option bytes :=          (* str.encode("iso-8859-1") on the UTF-8 form of the str *)
+  match s with
+  | [] => Some []
+  | b :: s' =>
+      if b <? 128 then option_map (cons b) (latin1_of_utf8 s')
+      else match s' with
+           | c :: s'' => if (b =? 194) || (b =? 195)
+                         then option_map (cons ((b - 192) * 64 + (c - 128))) (latin1_of_utf8 s'')
+                         else None
+           | [] => None
+           end
+  end.
+
+Definition DFUEL : nat := 40.
+
+(** _default_value(schema, default, named types): the JSON default as a value of the field's type; what does
+    not need converting is returned as it is (the parser has checked the default against the type) *)
+Fixpoint code_default (f : nat) (re : env) (r : schema) (d : pyval) {struct f} : rres pyval :=
+  match f with
+  | O => RFuel
+  | S f =>
+    match deref re r with
+    | SUnion rbs =>
+        (fix go rbs := match rbs with
+                       | [] => ROk d
+                       | b :: rbs => if json_fits re b d then code_default f re b d else go rbs
+                       end) rbs
+    | SBytes | SFixed _ _ _ =>
+        match d with
+        | PStr s => match latin1_of_utf8 s with Some b => ROk (PBytes b) | None => RErrOther end
+        | _ => RErrOther
+        end
+    | SDouble =>
+        match d with PInt z => let+ x := of_res (z2d z) in ROk (PFloat x) | PFloat x => ROk (PFloat x) | _ => RErrOther end
+    | SFloat =>
+        match d with
+        | PInt z => let+ x := of_res (z2d z) in let+ y := round32 x in ROk (PFloat y)
+        | PFloat x => let+ y := round32 x in ROk (PFloat y)
+        | _ => RErrOther
+        end
+    | SArray ri =>
+        match d with
+        | PList l =>
+            let+ l := (fix go l := match l with
+                                   | [] => ROk []
+                                   | x :: l => let+ v := code_default f re ri x in let+ t := go l in ROk (v :: t)
+                                   end) l in ROk (PList l)
+        | _ => RErrOther
+        end
+    | SMap rv =>
+        match d with
+        | PDict kv =>
+            let+ kv := (fix go kv := match kv with
+                                     | [] => ROk []
+                                     | (k, x) :: kv => let+ v := code_default f re rv x in
+                                                       let+ t := go kv in ROk ((k, v) :: t)
+                                     end) kv in ROk (PDict kv)
+        | _ => RErrOther
+        end
+    | SRecord _ _ rfs =>
+        match d with
+        | PDict kv =>
+            let+ kv := (fix go rfs := match rfs with
+                                      | [] => ROk []
+                                      | fd :: rfs =>
+                                          let+ v := match dict_get kv (fname fd), fdefault fd with
+                                                    | Some x, _ => code_default f re (ftype fd) x
+                                                    | None, Some x => code_default f re (ftype fd) x
+                                                    | None, None => RErrOther              (* KeyError 'default' *)
+                                                    end in
+                                          let+ t := go rfs in ROk ((PStr (fname fd), v) :: t)
+                                      end) rfs in ROk (PDict kv)
+        | _ => RErrOther
+        end
+    | _ => ROk d
+    end
+  end.
+
+(* "fill in default values" *)
+Fixpoint fill_defaults (re : env) (tbl : list (str * field)) (record : list (pyval * pyval)) : rres (list (pyval * pyval)) :=
   match tbl with
   | [] => ROk record
   | (n, fd) :: tbl =>
       match dict_get record n with
-      | Some _ => fill_defaults tbl record
+      | Some _ => fill_defaults re tbl record
       | None =>
           match fdefault fd with
-          | Some d => fill_defaults tbl (dict_set record (fname fd) d)
+          | Some d => let+ v := code_default DFUEL re (ftype fd) d in
+                      fill_defaults re tbl (dict_set record (fname fd) v)
           | None => RErrResolution
           end
       end
   end.
 
-Definition finish_record (rfs : list field) (record : list (pyval * pyval)) : rres pyval :=
+Definition finish_record (re : env) (rfs : list field) (record : list (pyval * pyval)) : rres pyval :=
   let tbl := field_table rfs in
   if len tbl >? len record
-  then let+ record := fill_defaults tbl record in ROk (PDict record)
+  then let+ record := fill_defaults re tbl record in ROk (PDict record)
   else ROk (PDict record).
 
 (** naming of union results under return_record_name / return_named_type with a reader schema:
@@ -346,18 +461,10 @@ Definition r_values (r : schema) : rres schema :=
 Definition r_fields (r : schema) : rres (list field) :=
   if is_dict r then match strip r with SRecord _ _ rfs => ROk rfs | _ => RErrOther end else RErrOther.
 
-(* the reader schema handed to the by-name step: named_schemas["reader"].get(reader_schema) *)
-Definition reader_by_name (re : env) (R : option schema) : rres (option schema) :=
-  match R with
-  | None => ROk None
-  | Some r => if is_str r then ROk (match r with SRef m => lookup re m | _ => None end)
-              else RErrOther                                           (* unhashable type: dict / list *)
-  end.
-
-(* read_data's first step: the reader schema to continue with *)
+(* read_data's first step: the reader schema to continue with - matched, then dereferenced *)
 Definition matched (we re : env) (w : schema) (R : option schema) : rres (option schema) :=
   match truthy R with
-  | Some r => let+ x := match_top we re w r in ROk (Some x)
+  | Some r => let+ x := match_top we re w r in ROk (Some (deref1 re x))
   | None => ROk R
   end.
 
@@ -367,9 +474,10 @@ Definition union_reader (we re : env) (wb : schema) (R : option schema) : rres (
   match truthy R with
   | None => ROk (None, None)
   | Some (SUnion rbs) =>
-      let+ b := first_branch (match_types_top we re wb) rbs in ROk (Some b, Some b)
+      let+ x := reader_branch (fun l => match_types_top we re l wb) rbs in
+      match x with Some b => ROk (Some b, Some b) | None => RErrResolution end
   | Some r =>
-      let+ x := match_types_top we re wb r in
+      let+ x := match_types_top we re 2 wb r in
       if x then ROk (Some r, None) else RErrResolution
   end.
 
@@ -411,7 +519,7 @@ Fixpoint rdec (f : nat) (we re : env) (o : ropts) (w : schema) (R : option schem
       | SRef n =>                                                      (* not in READERS: by-name step *)
           match lookup we n with
           | None => RErrOther
-          | Some w' => let+ R'' := reader_by_name re R' in rdec f we re o w' R'' bs
+          | Some w' => rdec f we re o w' R' bs
           end
       | SArray wi =>
           let item bs := match truthy R' with
@@ -440,7 +548,7 @@ Fixpoint rdec (f : nat) (we re : env) (o : ropts) (w : schema) (R : option schem
           | Some r =>
               let+ rfs := r_fields r in
               let+ (record, bs) := rfields (rdec f we re o) (skip f we) rfs wfs [] bs in
-              let+ v := finish_record rfs record in ROk (v, bs)
+              let+ v := finish_record re rfs record in ROk (v, bs)
           end
       | SEnum _ _ syms _ =>
           let+ (i, bs) := of_res (long_dec bs) in
@@ -502,7 +610,7 @@ Fixpoint rval (f : nat) (we re : env) (o : ropts) (w : schema) (R : option schem
       | SRef n, _ =>
           match lookup we n with
           | None => RErrOther
-          | Some w' => let+ R'' := reader_by_name re R' in rval f we re o w' R'' a
+          | Some w' => rval f we re o w' R' a
           end
       | SArray wi, AArray l =>
           let item a := match truthy R' with
@@ -530,7 +638,7 @@ Fixpoint rval (f : nat) (we re : env) (o : ropts) (w : schema) (R : option schem
           | Some r =>
               let+ rfs := r_fields r in
               let+ record := vfields (rval f we re o) rfs wfs l [] in
-              finish_record rfs record
+              finish_record re rfs record
           end
       | SEnum _ _ syms _, AEnum i =>
           match nthZ syms i with
@@ -555,8 +663,7 @@ Fixpoint rval (f : nat) (we re : env) (o : ropts) (w : schema) (R : option schem
     (names in [re]); [RErrResolution] when no rule applies.  By-name references are followed on both
     sides before anything is compared, so inline definitions and references are interchangeable. *)
 
-(** promotions.  A Python float holding an Avro "float" is a binary32 value widened to binary64. *)
-Definition round32 (d : Z) : rres Z := let+ s := of_res (d2s d) in ROk (s2d s).
+(** promotions ([round32]: to single precision and back) *)
 Definition int_to_float (z : Z) : rres pyval := let+ d := of_res (z2d z) in let+ x := round32 d in ROk (PFloat x).
 Definition int_to_double (z : Z) : rres pyval := let+ d := of_res (z2d z) in ROk (PFloat d).
 
@@ -597,7 +704,8 @@ Fixpoint smatch (we re : env) (promo : bool) (w r : schema) {struct w} : bool :=
 (** the very same named type: same kind and same full name *)
 Definition same_named (we re : env) (w b : schema) : bool :=
   match deref we w, deref re b with
-  | SEnum wn _ _ _, SEnum rn _ _ _ | SFixed wn _ _, SFixed rn _ _ | SRecord wn _ _, SRecord rn _ _ => bytes_eqb wn rn
+  | SEnum wn _ _ _, SEnum rn _ _ _ | SRecord wn _ _, SRecord rn _ _ => bytes_eqb wn rn
+  | SFixed wn _ wsz, SFixed rn _ rsz => bytes_eqb wn rn && (wsz =? rsz)
   | _, _ => false
   end.
 
@@ -624,22 +732,8 @@ Definition reader_side (we re : env) (w r : schema) : option schema :=
   | dr => Some dr
   end.
 
-(** JSON default of a reader field as a value of the field's type *)
-Fixpoint latin1_of_utf8 (s : str) : option bytes :=
-  match s with
-  | [] => Some []
-  | b :: s' =>
-      if b <? 128 then option_map (cons b) (latin1_of_utf8 s')
-      else match s' with
-           | c :: s'' => if (b =? 194) || (b =? 195)
-                         then option_map (cons ((b - 192) * 64 + (c - 128))) (latin1_of_utf8 s'')
-                         else None
-           | [] => None
-           end
-  end.
-
-Definition DFUEL : nat := 40.
-
+(** JSON default of a reader field as a value of the field's type; for a union: of the first branch the
+    default's JSON type fits *)
 Fixpoint default_value (f : nat) (re : env) (r : schema) (d : pyval) {struct f} : rres pyval :=
   match f with
   | O => RFuel
@@ -681,7 +775,7 @@ Fixpoint default_value (f : nat) (re : env) (r : schema) (d : pyval) {struct f} 
     | SUnion rbs, d =>
         (fix go rbs := match rbs with
                        | [] => RErrOther
-                       | b :: rbs => match default_value f re b d with ROk v => ROk v | RFuel => RFuel | _ => go rbs end
+                       | b :: rbs => if json_fits re b d then default_value f re b d else go rbs
                        end) rbs
     | _, _ => RErrOther
     end
@@ -862,17 +956,28 @@ Definition spec_idx (we re : env) (w : schema) (rbs : list schema) : option nat 
   end.
 
 
-Fixpoint first_branch_idx (mt : schema -> rres bool) (bs : list schema) : rres nat :=
+(* positions of find_branch / reader_branch *)
+Fixpoint find_branch_idx (mt : schema -> rres bool) (bs : list schema) : rres (option nat) :=
   match bs with
-  | [] => RErrResolution
-  | b :: bs => let+ x := mt b in if x then ROk O else let+ k := first_branch_idx mt bs in ROk (S k)
+  | [] => ROk None
+  | b :: bs => let+ x := mt b in if x then ROk (Some O) else let+ k := find_branch_idx mt bs in ROk (option_map S k)
   end.
 
+Definition reader_branch_idx (mt : nat -> schema -> rres bool) (bs : list schema) : rres (option nat) :=
+  let+ x := find_branch_idx (mt 0%nat) bs in
+  match x with
+  | Some k => ROk (Some k)
+  | None => let+ x := find_branch_idx (mt 1%nat) bs in
+            match x with
+            | Some k => ROk (Some k)
+            | None => find_branch_idx (mt 2%nat) bs
+            end
+  end.
 
-Definition pick_ok (code : rres nat) (spec : option nat) (cont : nat -> bool) : bool :=
+Definition pick_ok (code : rres (option nat)) (spec : option nat) (cont : nat -> bool) : bool :=
   match code, spec with
-  | ROk k, Some k' => Nat.eqb k k' && cont k
-  | RErrResolution, None => true
+  | ROk (Some k), Some k' => Nat.eqb k k' && cont k
+  | ROk None, None => true
   | _, _ => false
   end.
 
@@ -893,21 +998,11 @@ Definition guard_ok (rfs wfs : list field) : bool :=
   let tbl := field_table rfs in
   (len tbl >? len ks) || forallb (fun e => mem (fst e) ks) tbl.
 
-(** JSON defaults that are already the Python value of their type *)
-Definition simple_default (s : schema) (d : pyval) : bool :=
-  let leaf s :=
-    match s, d with
-    | SNull, PNone | SBool, PBool _ | SInt, PInt _ | SLong, PInt _ | SDouble, PFloat _ | SString, PStr _
-    | SEnum _ _ _ _, PStr _ | SArray _, PList [] | SMap _, PDict [] => true
-    | _, _ => false
-    end in
-  match s with
-  | SUnion (b :: _) => negb (is_union b) && leaf b
-  | _ => leaf s
-  end.
-
-Definition defaults_simple (rfs : list field) : bool :=
-  forallb (fun e => match fdefault (snd e) with Some d => inline (ftype (snd e)) && simple_default (ftype (snd e)) d | None => true end)
+(** the JSON defaults of the reader's fields are well-formed defaults of their types *)
+Definition defaults_ok (re : env) (rfs : list field) : bool :=
+  forallb (fun e => match fdefault (snd e) with
+                    | Some d => match default_value DFUEL re (ftype (snd e)) d with ROk _ => true | _ => false end
+                    | None => true end)
           (field_table rfs).
 
 Definition accept_ok (we re : env) (w r : schema) : bool :=
@@ -919,14 +1014,12 @@ Definition accept_ok (we re : env) (w r : schema) : bool :=
 
 Definition truthy_ok (r : schema) : bool := match r with SUnion [] => false | _ => true end.
 
-(** *** the agreement zone: every decision the code takes on the way coincides with the specification's.
-    It excludes exactly: a reader union in which the code's first matching branch is not the specification's
-    (F6), named types whose kind differs under matching names, int/long -> float, an empty-string enum default,
-    reader-only fields whose JSON default is not yet a value of the field's type, empty reader unions. *)
+(** *** the agreement zone: every decision the code takes on the way coincides with the specification's
+    (the verdicts of match_schemas / match_types, the reader-union branch picked), no empty-string enum default,
+    no empty reader union, well-formed JSON defaults. *)
 Fixpoint agree (we re : env) (w r : schema) {struct w} : bool :=
   let sub (b : schema) : bool :=
     match w, b with
-    | SInt, SFloat | SLong, SFloat => false
     | SEnum _ _ _ _, SEnum _ _ _ (Some []) => false
     | SArray wi, SArray ri => agree we re wi ri
     | SMap wv, SMap rv => agree we re wv rv
@@ -934,7 +1027,7 @@ Fixpoint agree (we re : env) (w r : schema) {struct w} : bool :=
         forallb (fun wf => match reader_field rfs (fname wf) with
                            | Some rf => agree we re (ftype wf) (ftype rf)
                            | None => true end) wfs
-        && defaults_simple rfs && guard_ok rfs wfs
+        && defaults_ok re rfs && guard_ok rfs wfs
     | _, _ => true
     end in
   truthy_ok r &&
@@ -943,9 +1036,9 @@ Fixpoint agree (we re : env) (w r : schema) {struct w} : bool :=
       forallb (fun wb =>
         match r with
         | SUnion rbs =>
-            pick_ok (first_branch_idx (match_types_top we re wb) rbs) (spec_idx we re wb rbs)
+            pick_ok (reader_branch_idx (fun l => match_types_top we re l wb) rbs) (spec_idx we re wb rbs)
                     (fun k => match nth_error rbs k with Some b => agree we re wb b | None => false end)
-        | _ => match match_types_top we re wb r with
+        | _ => match match_types_top we re 2 wb r with
                | ROk t => Bool.eqb t (smatch we re true wb r) && (if t then agree we re wb r else true)
                | _ => false
                end
@@ -953,12 +1046,11 @@ Fixpoint agree (we re : env) (w r : schema) {struct w} : bool :=
   | _ =>
       match r with
       | SUnion rbs =>
-          pick_ok (first_branch_idx (match_types (pred (mfuel w)) we re w) rbs) (spec_idx we re w rbs)
+          pick_ok (reader_branch_idx (fun l => match_types (pred (mfuel w)) we re l w) rbs) (spec_idx we re w rbs)
                   (fun k => match nth_error rbs k with Some b => smatch we re true w b && sub b | None => false end)
       | _ => accept_ok we re w r && (if smatch we re true w r then sub r else true)
       end
   end.
-
 
 (** text protocol *)
 Open Scope string_scope.
